@@ -146,7 +146,9 @@ func shutBusRun(w *World) {
 			last[e.sender] = e.seq
 		}
 		for i, e := range l.got {
-			if l.cancelStep == 0 || l.gotStep[i] <= l.cancelStep+1 {
+			if l.cancelStep == 0 || l.gotStep[i] <= l.cancelStep+1 || w.LazyGoroutines() {
+				// (with lazily scheduled library goroutines the listener's own shutdown - a goroutine waiting for the
+				// context - may not have run yet when a later Send starts: the channel is still open, delivery is fine)
 				continue
 			}
 			// Received well after the cancel. A Send that was already under way when the context was cancelled may still
@@ -343,6 +345,9 @@ func shutResRun(w *World) {
 				// time of the cancel (its delivery was in flight); a write invoked after the cancel had completed must not
 				// reach the subscriber any more.
 				for _, i := range s.late {
+					if w.LazyGoroutines() {
+						break // the subscription's shutdown is asynchronous; until it has run, deliveries are legitimate
+					}
 					e := s.events[i]
 					for _, wr := range writers {
 						for _, h := range wr.hist {
